@@ -187,6 +187,9 @@ func (r *rpcRun) exec(a *actor, st Step) (stop bool) {
 	if st.Actor == "cs2" {
 		key = "cs/" + st.Op
 	}
+	if st.Actor == "cr2" {
+		key = "cr/" + st.Op
+	}
 	switch key {
 	case "cs/send":
 		tag = r.newTagLocked()
